@@ -12,6 +12,7 @@ package main
 import (
 	"fmt"
 	"math"
+	"strings"
 
 	"github.com/golang/geo/r3"
 	"github.com/golang/geo/s1"
@@ -78,7 +79,9 @@ func rectExcess(r s2.Rect, ll s2.LatLng) float64 {
 			x := math.Abs(a - b)
 			return math.Min(x, 2*math.Pi-x)
 		}
-		e = math.Max(e, math.Min(d(float64(ll.Lng), r.Lng.Lo), d(float64(ll.Lng), r.Lng.Hi)))
+		// longitude excess measured as arc length on the point's parallel (longitude itself is
+		// ill-conditioned within nanometres of a pole)
+		e = math.Max(e, math.Cos(float64(ll.Lat))*math.Min(d(float64(ll.Lng), r.Lng.Lo), d(float64(ll.Lng), r.Lng.Hi)))
 	}
 	return e
 }
@@ -92,6 +95,33 @@ func nearPoleBounderKind(kind string, p s2.Point) bool {
 		return math.Abs(float64(s2.LatLngFromPoint(p).Lat)) > math.Pi/2-1e-6
 	}
 	return false
+}
+
+// Known findings are rounding-level only.  A RectBound violation keeps its base kind when the
+// computed lat/lng is outside by at most 2e-15 rad (a few ulps of pi); Cap.RectBound has the
+// documented second class up to 3e-8 rad (asin amplification near a hemisphere); anything
+// larger gets the suffix ".gross", which no known finding lists.
+func rectTier(k string, e float64) string {
+	switch {
+	case e <= 2e-15:
+		return k
+	case k == "Cap.RectBound" && e <= 3e-8:
+		return k + "(excess>1e-12)"
+	}
+	return k + ".gross"
+}
+
+// A CapBound violation keeps its base kind when the point is outside by at most 1e-14 rad, or by
+// at most 4 ulps of the stored squared chord radius (caps near 180 degrees, where one ulp of the
+// chord is many radians-ulps); otherwise ".gross".
+func capTier(k string, cp s2.Cap, p s2.Point) string {
+	r := s2.VerifC10CapRadius(cp)
+	d := float64(s2.ChordAngleBetweenPoints(cp.Center(), p))
+	ulp := math.Nextafter(math.Abs(r), math.Inf(1)) - math.Abs(r)
+	if float64(cp.Center().Angle(p.Vector))-float64(cp.Radius()) <= 1e-14 || (d-r) <= 4*ulp {
+		return k
+	}
+	return k + ".gross"
 }
 
 // checkContained runs the conclusion of the property for one contained point.
@@ -117,9 +147,7 @@ func checkContained(c *vkit.Collector, kind string, b boundsOf, p s2.Point, repl
 		if lvl, ok := replay["level"]; ok && lvl == 0 {
 			k += "(level0)"
 		}
-		if rectExcess(b.rect, ll) > 1e-12 && k != "RectBounder.latBudget(near-pole)" {
-			k += "(excess>1e-12)"
-		}
+		k = rectTier(k, rectExcess(b.rect, ll))
 		violate(c, k, "a contained point's computed lat/lng is outside RectBound()", rep())
 	}
 	if !b.cap.ContainsPoint(p) {
@@ -128,6 +156,7 @@ func checkContained(c *vkit.Collector, kind string, b boundsOf, p s2.Point, repl
 			// Loop/Polygon/Polyline.CapBound() is RectBound().CapBound(): attribute to Rect.CapBound
 			k = "Rect.CapBound"
 		}
+		k = capTier(k, b.cap, p)
 		violate(c, k, "a contained point is outside CapBound()", rep())
 	}
 	if b.cells != nil && !covers(b.cells, p) {
@@ -201,6 +230,31 @@ func searchCap(c *vkit.Collector, g *gen, cp s2.Cap) {
 		return
 	}
 	b := boundsFor(cp)
+	capRep := map[string]interface{}{"cap_center": chainJSON([]s2.Point{cp.Center()}), "cap_radius_chord2": s2.VerifC10CapRadius(cp), "cap": cp.String()}
+	if !b.rect.IsValid() {
+		capRep["rect"] = fs(b.rect.Lat.Lo, b.rect.Lat.Hi, b.rect.Lng.Lo, b.rect.Lng.Hi)
+		k := "Cap.RectBound.invalid.gross"
+		if b.rect.Lat.IsEmpty() == b.rect.Lng.IsEmpty() && math.Abs(b.rect.Lat.Lo) <= math.Pi/2 && math.Abs(b.rect.Lat.Hi) <= math.Pi/2 &&
+			math.Abs(b.rect.Lng.Lo) <= math.Pi && math.Abs(b.rect.Lng.Hi) <= math.Pi {
+			// every endpoint is in range; only the "-pi is written as +pi" convention is broken
+			k = "Cap.RectBound.invalid(-pi endpoint)"
+		}
+		violate(c, k, "Cap.RectBound() is not a valid Rect", capRep)
+	}
+	// probes on both sides of the +-180 meridian, at the centre latitude and around it
+	cll := s2.LatLngFromPoint(cp.Center())
+	for _, dl := range []float64{0, 0.3, -0.3, 0.9, -0.9} {
+		for _, lng := range []float64{math.Pi, -math.Pi, math.Pi - 1e-9, -math.Pi + 1e-9, math.Pi - 1e-3, -math.Pi + 1e-3, math.Pi - 0.2, -math.Pi + 0.2} {
+			lat := float64(cll.Lat) + dl*float64(cp.Radius())
+			if math.Abs(lat) > math.Pi/2 {
+				continue
+			}
+			p := s2.PointFromLatLng(s2.LatLng{Lat: s1.Angle(lat), Lng: s1.Angle(lng)})
+			if cp.ContainsPoint(p) {
+				checkContained(c, "Cap", b, p, capRep)
+			}
+		}
+	}
 	for k := 0; k < 6; k++ {
 		for _, p := range neighbours(g.pointNearCap(cp)) {
 			if cp.ContainsPoint(p) {
@@ -229,6 +283,27 @@ func searchCapPoint(c *vkit.Collector, cp s2.Cap, p s2.Point) {
 	}
 }
 
+// searchRect: every point of a grid of the rectangle (corners, edge midpoints incl. the
+// mid-longitude points of the top/bottom edges, interior) must be inside Rect.CapBound().
+func searchRect(c *vkit.Collector, g *gen, r s2.Rect) {
+	if r.IsEmpty() || !r.IsValid() {
+		return
+	}
+	b := boundsOf{r, r.CapBound(), r.CellUnionBound()}
+	lngLen := r.Lng.Length()
+	const n = 6
+	for i := 0; i <= n; i++ {
+		lat := r.Lat.Lo + (r.Lat.Hi-r.Lat.Lo)*float64(i)/n
+		for j := 0; j <= n; j++ {
+			lng := math.Remainder(r.Lng.Lo+lngLen*float64(j)/n, 2*math.Pi)
+			p := s2.PointFromLatLng(s2.LatLng{Lat: s1.Angle(lat), Lng: s1.Angle(lng)})
+			if r.ContainsPoint(p) {
+				checkContained(c, "Rect", b, p, map[string]interface{}{"rect_deg": r.String()})
+			}
+		}
+	}
+}
+
 func searchAddCap(c *vkit.Collector, g *gen, a, b, ab s2.Cap) {
 	if a.IsEmpty() || b.IsEmpty() || !a.IsValid() || !b.IsValid() {
 		return
@@ -237,7 +312,7 @@ func searchAddCap(c *vkit.Collector, g *gen, a, b, ab s2.Cap) {
 	for k := 0; k < 4; k++ {
 		for _, p := range neighbours(g.pointNearCap(b)) {
 			if b.ContainsPoint(p) && !ab.ContainsPoint(p) {
-				violate(c, "Cap.AddCap", "a point of the added cap is outside the result", map[string]interface{}{"a": a.String(), "b": b.String(), "p": chainJSON([]s2.Point{p}),
+				violate(c, capTier("Cap.AddCap", ab, p), "a point of the added cap is outside the result", map[string]interface{}{"a": a.String(), "b": b.String(), "p": chainJSON([]s2.Point{p}),
 					"a_center": chainJSON([]s2.Point{a.Center()}), "a_r": s2.VerifC10CapRadius(a), "b_center": chainJSON([]s2.Point{b.Center()}), "b_r": s2.VerifC10CapRadius(b)})
 			}
 			c.Evals++
@@ -322,6 +397,7 @@ func searchCellUnion(c *vkit.Collector, g *gen, cu s2.CellUnion) {
 func runSearch(c *vkit.Collector, g *gen, budget int) {
 	searchPolygons(c, g, 60*budget)
 	searchPolylines(c, g, 200*budget)
+	searchWide(c, g, 40*budget)
 	searchSubregions(c, g, 400*budget)
 	searchHull(c, g, 300*budget)
 	oracleRun(c)
@@ -437,6 +513,58 @@ func searchPolylines(c *vkit.Collector, g *gen, n int) {
 			}
 		}
 	}
+}
+
+// searchWide: pole-free band loops and polylines spanning more than 180 degrees of longitude
+// with a large latitude extent (their RectBound is wide and tall, CapBound is derived from it).
+func searchWide(c *vkit.Collector, g *gen, n int) {
+	for k := 0; k < n; k++ {
+		span := g.rng.Range(math.Pi*1.02, math.Pi*1.9)
+		c0 := g.rng.Range(-math.Pi, math.Pi)
+		latN, latS := g.rng.Range(0.2, 1.0), -g.rng.Range(0.2, 1.0)
+		if g.rng.Intn(4) == 0 {
+			latS = latN - g.rng.Range(0.05, 0.3) // band on one side of the equator
+		}
+		m := 6 + g.rng.Intn(6)
+		top, bot := []s2.Point{}, []s2.Point{}
+		for i := 0; i <= m; i++ {
+			lng := math.Remainder(c0-span/2+span*float64(i)/float64(m), 2*math.Pi)
+			top = append(top, s2.PointFromLatLng(s2.LatLng{Lat: s1.Angle(latN), Lng: s1.Angle(lng)}))
+			bot = append(bot, s2.PointFromLatLng(s2.LatLng{Lat: s1.Angle(latS), Lng: s1.Angle(lng)}))
+		}
+		// polyline: west to east along the top, then back along the bottom
+		pl := s2.Polyline(append(append([]s2.Point{}, top...), reverse(bot)...))
+		bp := boundsOf{pl.RectBound(), pl.CapBound(), pl.CellUnionBound()}
+		c.Class("wide:polyline")
+		for _, p := range pl {
+			checkContained(c, "Polyline", bp, p, map[string]interface{}{"class": "wide", "polyline": chainJSON(pl)})
+		}
+		searchRect(c, g, pl.RectBound())
+		// loop: bottom west->east, top east->west (counter-clockwise band, no pole inside)
+		vs := append(append([]s2.Point{}, bot...), reverse(top)...)
+		l := s2.LoopFromPoints(vs)
+		if l.Validate() != nil || enclosesPole(l) {
+			c.Class("wide:loop(skipped)")
+			continue
+		}
+		c.Class("wide:loop")
+		searchLoop(c, g, l, "wide-band")
+		poly := s2.PolygonFromLoops([]*s2.Loop{s2.LoopFromPoints(append([]s2.Point{}, vs...))})
+		bpoly := boundsFor(poly)
+		for _, p := range loopCandidates(g, vs, 2) {
+			if poly.ContainsPoint(p) {
+				checkContained(c, "Polygon", bpoly, p, map[string]interface{}{"class": "wide-band", "loop0": chainJSON(vs)})
+			}
+		}
+	}
+}
+
+func reverse(ps []s2.Point) []s2.Point {
+	out := make([]s2.Point, len(ps))
+	for i, p := range ps {
+		out[len(ps)-1-i] = p
+	}
+	return out
 }
 
 func enclosesPole(l *s2.Loop) bool { return l.ContainsPoint(north) || l.ContainsPoint(south) }
@@ -637,12 +765,21 @@ func searchHull(c *vkit.Collector, g *gen, n int) {
 		}
 		if err := hull.Validate(); err != nil {
 			k := "ConvexHull.valid"
-			if len(distinct) == 2 {
-				k = "ConvexHull.singleEdgeLoop"
+			if len(distinct) == 2 && len(input) >= 2 && strings.Contains(err.Error(), "duplicate vertex") {
+				// known only for two distinct points within a few ulps of each other
+				var two []s2.Point
+				for p := range distinct {
+					two = append(two, p)
+				}
+				if float64(two[0].Angle(two[1].Vector)) <= 1e-15 {
+					k = "ConvexHull.singleEdgeLoop"
+				}
 			}
-			for _, p := range input {
-				if distinct[s2.Point{Vector: p.Mul(-1)}] {
-					k = "ConvexHull.antipodal-input"
+			if strings.Contains(err.Error(), "antipodal") {
+				for _, p := range input {
+					if distinct[s2.Point{Vector: p.Mul(-1)}] { // known only when the input has an exactly antipodal pair
+						k = "ConvexHull.antipodal-input"
+					}
 				}
 			}
 			violate(c, k, "hull loop is invalid: "+err.Error(), rep())
